@@ -11,7 +11,7 @@ def main():
     from sim import build, checks
 
     bt = build.load(req["snap"], compiled=req["compiled"])
-    out = checks.SPECS["C11"].digests_alone(bt, req["plan"])
+    out = checks.SPECS["C11"].digests_alone(bt, req["plan"], reverse=True)
     print(json.dumps(out))
 
 
